@@ -770,6 +770,158 @@ fn run_hist(rng: &mut rand::rngs::StdRng) -> (Vec<Value>, Stop) {
     (ev, stop)
 }
 
+// ---------------------------------------------------------------------------------------------
+// forwarder: reconnect / drop behaviour against an agent that goes away and comes back (unix sockets)
+
+static FWD_LOG: std::sync::Mutex<Vec<(i64, i64)>> = std::sync::Mutex::new(Vec::new());
+static FWD_TID: std::sync::Mutex<Option<std::thread::ThreadId>> = std::sync::Mutex::new(None);
+
+fn fwd_one(rng: &mut rand::rngs::StdRng, idx: usize, dir: &str) -> Vec<Value> {
+    use std::io::Read;
+    use std::time::{Duration, Instant};
+    let stream = idx % 2 == 1;
+    let path = format!("{dir}/fwd_{}_{idx}.sock", std::process::id());
+    let _ = std::fs::remove_file(&path);
+    let mut ev = vec![json!({"p": 0, "ev": "reset", "a": [stream as i64]})];
+    FWD_LOG.lock().unwrap().clear();
+    *FWD_TID.lock().unwrap() = None;
+    // the agent: a thread owning the socket(s); commands through a channel
+    let (ctx, crx) = std::sync::mpsc::channel::<bool>(); // true = up, false = down
+    let (atx, arx) = std::sync::mpsc::channel::<()>(); // acknowledgements
+    let got: std::sync::Arc<std::sync::Mutex<Vec<i64>>> = Default::default();
+    let got2 = got.clone();
+    let stopf = std::sync::Arc::new(std::sync::atomic::AtomicBool::new(false));
+    let stop2 = stopf.clone();
+    let path2 = path.clone();
+    let agent = std::thread::spawn(move || {
+        let mut dg: Option<std::os::unix::net::UnixDatagram> = None;
+        let mut ls: Option<std::os::unix::net::UnixListener> = None;
+        let mut conns: Vec<(std::os::unix::net::UnixStream, Vec<u8>)> = vec![];
+        let mut buf = vec![0u8; 65536];
+        let parse = |p: &[u8], got: &std::sync::Mutex<Vec<i64>>| {
+            let t = String::from_utf8_lossy(p);
+            for line in t.lines() {
+                if let Some(v) = line.strip_prefix("c1:").and_then(|r| r.split('|').next()).and_then(|v| v.parse::<i64>().ok()) {
+                    got.lock().unwrap().push(v);
+                } else {
+                    got.lock().unwrap().push(-1);
+                }
+            }
+        };
+        while !stop2.load(std::sync::atomic::Ordering::Relaxed) {
+            if let Ok(upcmd) = crx.try_recv() {
+                if upcmd {
+                    let _ = std::fs::remove_file(&path2);
+                    if stream {
+                        let l = std::os::unix::net::UnixListener::bind(&path2).unwrap();
+                        l.set_nonblocking(true).unwrap();
+                        ls = Some(l);
+                    } else {
+                        let d = std::os::unix::net::UnixDatagram::bind(&path2).unwrap();
+                        d.set_read_timeout(Some(Duration::from_millis(2))).unwrap();
+                        dg = Some(d);
+                    }
+                } else {
+                    dg = None;
+                    ls = None;
+                    conns.clear();
+                    let _ = std::fs::remove_file(&path2);
+                }
+                let _ = atx.send(());
+            }
+            if let Some(d) = &dg {
+                if let Ok(n) = d.recv(&mut buf) {
+                    parse(&buf[..n], &got2);
+                }
+            } else if let Some(l) = &ls {
+                if let Ok((c, _)) = l.accept() {
+                    c.set_read_timeout(Some(Duration::from_millis(2))).unwrap();
+                    conns.push((c, vec![]));
+                }
+                for (c, acc) in conns.iter_mut() {
+                    if let Ok(n) = c.read(&mut buf) {
+                        acc.extend_from_slice(&buf[..n]);
+                    }
+                    while acc.len() >= 4 {
+                        let n = u32::from_le_bytes([acc[0], acc[1], acc[2], acc[3]]) as usize;
+                        if acc.len() < 4 + n {
+                            break;
+                        }
+                        parse(&acc[4..4 + n], &got2);
+                        acc.drain(..4 + n);
+                    }
+                }
+                if conns.is_empty() {
+                    std::thread::sleep(Duration::from_millis(1));
+                }
+            } else {
+                std::thread::sleep(Duration::from_millis(1));
+            }
+        }
+    });
+    ctx.send(true).unwrap();
+    arx.recv().unwrap();
+    let addr = if stream { format!("unix://{path}") } else { format!("unixgram://{path}") };
+    let recorder = match metrics_exporter_dogstatsd::DogStatsDBuilder::default()
+        .with_remote_address(&addr)
+        .unwrap()
+        .with_telemetry(false)
+        .with_flush_interval(Duration::from_millis(15))
+        .build()
+    {
+        Ok(r) => r,
+        Err(e) => {
+            ev.push(json!({"p": 0, "ev": "build_error", "a": [], "e": format!("{e}")}));
+            return ev;
+        }
+    };
+    let md = Metadata::new("t", Level::INFO, None);
+    let c = recorder.register_counter(&Key::from_name("c1"), &md);
+    let nsteps = rng.random_range(4..=9usize);
+    let mut up = true;
+    let mut attempts_seen = 0usize;
+    let mut timed_out = false;
+    for id in 1..=nsteps as i64 {
+        // toggle the agent only while the forwarder is idle (no payload is attempted between emissions)
+        if rng.random_range(0..3) == 0 {
+            up = !up;
+            ctx.send(up).unwrap();
+            arx.recv().unwrap();
+            ev.push(json!({"p": 0, "ev": if up { "agent.up" } else { "agent.down" }, "a": []}));
+        }
+        c.increment(id as u64 * 10);
+        // the delta, then one zero: two payload attempts
+        let t0 = Instant::now();
+        loop {
+            let n = FWD_LOG.lock().unwrap().len();
+            if n >= attempts_seen + 2 {
+                break;
+            }
+            if t0.elapsed() > Duration::from_secs(10) {
+                timed_out = true;
+                break;
+            }
+            std::thread::sleep(Duration::from_millis(2));
+        }
+        let log = FWD_LOG.lock().unwrap().clone();
+        for (okk, len) in &log[attempts_seen.min(log.len())..] {
+            ev.push(json!({"p": 9, "ev": "fwd.send.post", "a": [okk, len]}));
+        }
+        attempts_seen = log.len();
+        if timed_out {
+            break;
+        }
+    }
+    std::thread::sleep(Duration::from_millis(60));
+    stopf.store(true, std::sync::atomic::Ordering::Relaxed);
+    let _ = agent.join();
+    let _ = std::fs::remove_file(&path);
+    let extra = FWD_LOG.lock().unwrap().len() - attempts_seen.min(FWD_LOG.lock().unwrap().len());
+    ev.push(json!({"p": 0, "ev": "agent.got", "a": got.lock().unwrap().clone(), "extra_attempts": extra, "timed_out": timed_out}));
+    std::mem::forget(recorder);
+    ev
+}
+
 fn main() {
     let args = vh::Args::parse();
     let mode = args.pos.get(0).map(|s| s.as_str()).unwrap_or("record").to_string();
@@ -830,6 +982,29 @@ fn main() {
             }
             summary["runs"] = json!(n);
             summary["diverged"] = json!(div);
+        }
+        "fwd" => {
+            let runs: usize = args.num("runs", 8);
+            let dir = args.get("dir").unwrap_or("/tmp").to_string();
+            metrics::verif::install_global(Some(Box::new(|site, a| {
+                if site == "fwd.send.post" {
+                    // only the newest exporter's forwarder thread is recorded (older ones cannot be stopped)
+                    let me = std::thread::current().id();
+                    let mut cur = FWD_TID.lock().unwrap_or_else(|e| e.into_inner());
+                    if cur.is_none() {
+                        *cur = Some(me);
+                    }
+                    if *cur == Some(me) {
+                        FWD_LOG.lock().unwrap_or_else(|e| e.into_inner()).push((a[0], a[1]));
+                    }
+                }
+            })));
+            for i in 0..runs {
+                for e in fwd_one(&mut rng, i, &dir) {
+                    w.put(&e);
+                }
+            }
+            summary["runs"] = json!(runs);
         }
         "hist" => {
             let runs: usize = args.num("runs", 100);
